@@ -8,7 +8,13 @@ mod campaign;
 mod clocksim;
 mod host;
 mod known;
+#[cfg(feature = "arc")]
+mod linz;
+#[cfg(feature = "arc")]
+mod locksim;
 mod rng;
+#[cfg(feature = "arc")]
+mod sched;
 mod simio;
 mod vclock;
 
@@ -148,8 +154,13 @@ fn replay_doc(doc: &Value) -> (Option<(String, String)>, u64) {
             let (v, d) = clocksim::replay(doc);
             (v.map(|v| (v.class, v.detail)), d)
         }
+        #[cfg(feature = "arc")]
+        "locksim" => {
+            let (v, d) = locksim::replay(doc);
+            (v.map(|v| (v.class, v.detail)), d)
+        }
         other => {
-            eprintln!("unknown engine in replay file: {other}");
+            eprintln!("unknown engine in replay file (or not built into this binary): {other}");
             std::process::exit(2);
         }
     }
@@ -258,8 +269,53 @@ fn main() {
             );
             finish(&cfg, &res, ev, &args.evidence);
         }
+        #[cfg(feature = "arc")]
+        "locksim" => {
+            let cfg = CampaignConfig {
+                engine: "locksim",
+                property: "C19",
+                base_seed: args.seed,
+                runs: args.runs.unwrap_or(if quick { 40_000 } else { 4_000_000 }),
+                max_seconds: args.seconds.unwrap_or(if quick { 60.0 } else { 900.0 }),
+                threads: args.threads,
+                keep_going: args.keep_going,
+                digest_file: args.digests.clone(),
+                replay_dir: args.replay_dir.clone(),
+            };
+            let policy = match locksim::validate_policy() {
+                Ok(log) => log,
+                Err(e) => {
+                    println!("HARNESS-ERROR engine=locksim lock waiting-policy stub disagrees with the real lock: {e}");
+                    std::process::exit(2);
+                }
+            };
+            let (regress_n, regress_v) = run_regressions("locksim", &args.regress_dir);
+            let mut res = campaign::run_campaign(&cfg, |_t| {
+                Box::new(locksim::LockWorker::new(known.clone())) as Box<dyn Worker>
+            });
+            res.violations.extend(regress_v);
+            let mut extra = Map::new();
+            extra.insert("regression_replays".into(), json!(regress_n));
+            extra.insert("distinct_interleavings".into(), json!(res.distinct));
+            extra.insert("lock_policy_validation".into(), json!(policy));
+            let ev = campaign::evidence_part(
+                &cfg,
+                &res,
+                &args.tier,
+                "exploration",
+                "one run = one seeded workload (2-3 real threads, each with its own runtime, 1-5 one-line container operations on a shared list/map) under one seeded schedule (random walk or PCT-style) of the baton scheduler, preceded by a sequential model self-check; non-trivial = the baton changed hands more often than the thread count (some preemption happened); distinct = distinct sequences of (thread, shared address class, intent kind, granted/blocked) lock events",
+                "scheduling points",
+                components(),
+                vec![
+                    "between two lock acquisitions a thread touches only thread-private state (safe Rust, no unsafe shared mutation)".into(),
+                    "the waiting policy of parking_lot::RwLock is modelled (writer claims a read-held lock; new readers then wait); try-variants on shared containers are counted and expected to be 0".into(),
+                ],
+                extra,
+            );
+            finish(&cfg, &res, ev, &args.evidence);
+        }
         other => {
-            eprintln!("unknown engine {other}");
+            eprintln!("unknown engine {other} (or not built into this binary)");
             std::process::exit(2);
         }
     }
